@@ -481,6 +481,13 @@ func c19CrashSig(cs *c19Case, res c19SpawnResult) string {
 		// one runaway allocation is named by the function that asked for it
 		return "crash:" + cs.sigFam() + ":out of memory, single allocation@" + c19Frame(res.stderr)
 	}
+	if strings.Contains(res.reason, "stack overflow") && cs.Fam == "clause" && strings.HasPrefix(cs.Tpl, "recursion-") {
+		// the frame at which a runaway recursion exhausts the stack varies from run to run: named by the template
+		return "crash:" + cs.sigFam() + ":" + res.reason + "@" + cs.Tpl
+	}
+	if strings.Contains(res.reason, "stack overflow") && cs.Fam == "fs" && cs.Cond == "file-sourcing-itself" {
+		return "crash:" + cs.sigFam() + ":" + res.reason + "@SOURCE"
+	}
 	return "crash:" + cs.sigFam() + ":" + res.reason + "@" + c19Frame(res.stderr)
 }
 
